@@ -5,6 +5,8 @@ Case families (field "kind"):
   ops     a real Buffer, one op per protocol line (Buffer methods, buffer.py functions, readline
           named commands called through their registered handler with a stub event);
           "fresh": every op from a fresh init (exhaustive small scope), else one op sequence
+  argv    `event.arg` as a probe handler sees it after typing an argument (every digit string of
+          length <= 3, with and without '-') into the real editor, against argVal(argOfKeys ...)
   e2e     the same commands typed key by key into a real PromptSession (emacs mode, multi-line):
           Esc - / Esc <digits> argument prefix, then the key; the model resolves the key through the
           regenerated binding table and computes the argument from the typed keys
@@ -163,7 +165,11 @@ RULE = ("exhaustive: every text over a 5-symbol alphabet up to the tier's length
         "-(len+2)..len+2; a second exhaustive family over {a . space \\n #} for the word / kill / comment "
         "commands and a third over {a space \\n \\r \\t} for reshape_text (all row pairs -1..3 x -2..3, widths "
         "0/1/3/5); then seeded random op sequences (1-12 ops) on texts up to 40 chars incl. wide/combining "
-        "characters, command sequences typed into a real PromptSession (Esc-prefixed numeric arguments incl. "
+        "characters, EVERY numeric argument of up to 3 digits (leading zeros included, with and without '-', "
+        "2222 strings) typed into a real PromptSession in front of backward-delete-char / delete-char / "
+        "self-insert (and every argument of up to 2 digits in front of the word / line kill and case commands), "
+        "each from a fresh (text, cursor), plus event.arg itself for each of them compared with argVal(argOfKeys); "
+        "command sequences typed into a real PromptSession (Esc-prefixed numeric arguments incl. "
         "'-', multi-digit and >= 1000000), history sequences (edits interleaved with working-line switches; "
         "3 working lines x every index x every switch exhaustively), FastDictCache key sequences (exhaustive "
         "for 3 keys, length <= 4, sizes 1-2) and Document create/read/drop sequences (exhaustive length <= 3); a "
@@ -426,8 +432,65 @@ def e2e_cases(rng, n):
         yield {"kind": "e2e", "text": text, "cur": cur, "ops": ops}
 
 
+def typed_arg_value(s):
+    """the numeric argument a user means by typing the characters s (each after Esc): nothing = 1,
+    '-' = -1, otherwise the decimal number; the editor replaces values >= 1000000 by 1"""
+    if s == "":
+        return 1
+    if s == "-":
+        return -1
+    n = int(s)
+    return 1 if n >= 1000000 else n
+
+
+def digit_strings(maxlen=3):
+    """every digit string of length 1..maxlen, and '-' + each, and '-' alone and nothing"""
+    out = ["", "-"]
+    for ln in range(1, maxlen + 1):
+        for tup in itertools.product("0123456789", repeat=ln):
+            out.append("".join(tup))
+            out.append("-" + "".join(tup))
+    return out
+
+
+ARGX_TEXT, ARGX_CUR = "ab cd. ef\ngh ij kl", 9
+
+
+def argx_cases():
+    """EVERY numeric argument of up to 3 digits (with and without '-', leading zeros included)
+    typed in front of each argument-taking command, each from a fresh (text, cursor), in the real
+    editor; plus the value of `event.arg` itself for each of them (kind "argv")"""
+    strs = digit_strings(3)
+    short = [x for x in strs if len(x.lstrip("-")) <= 2]
+    yield {"kind": "argv", "ops": [[x, 0] for x in strs] + [[x, 1] for x in strs if len(x.lstrip("-")) >= 2]}
+    ops = []
+    for i, x in enumerate(strs):
+        a = typed_arg_value(x)
+        plain = i % 2          # second and later digits typed without Esc (bindings `<digit>` with has_arg)
+        ops.append({"k": "bdc", "op": ["bdc", a], "arg": x, "plain": plain})
+        ops.append({"k": "dc", "op": ["dc", a], "arg": x, "plain": 1 - plain})
+        ops.append({"k": "si", "op": ["si", "x", a], "arg": x, "plain": plain})
+    for x in short:
+        a = typed_arg_value(x)
+        ops.append({"k": "kw", "op": ["kw", a], "arg": x})
+        ops.append({"k": "rub1", "op": ["rub", a, 1], "arg": x})
+        ops.append({"k": "rub0", "op": ["rub", a, 0], "arg": x})
+        ops.append({"k": "kl", "op": ["kl", a], "arg": x})
+        ops.append({"k": "uw", "op": ["uw", a], "arg": x})
+        ops.append({"k": "cw", "op": ["cw", a], "arg": x})
+    for i in range(0, len(ops), 64):
+        yield {"kind": "e2e", "fresh": True, "text": ARGX_TEXT, "cur": ARGX_CUR, "ops": ops[i:i + 64]}
+
+
+def arg_bytes(o):
+    a = o["arg"]
+    if o.get("plain") and len(a) > 1:
+        return "\x1b" + a[0] + a[1:]
+    return "".join("\x1b" + ch for ch in a)
+
+
 def e2e_bytes(o):
-    pre = "".join("\x1b" + ch for ch in o["arg"])
+    pre = arg_bytes(o)
     if o["k"] == "qi":
         return "\x11" + o["op"][1]
     if o["k"] == "si":
@@ -537,6 +600,7 @@ def cases(tier, rng):
         for tup in itertools.product(RS_ALPHA, repeat=n):
             text = "".join(tup)
             yield {"kind": "ops", "text": text, "cur": 0, "fresh": True, "ops": rops}
+    yield from argx_cases()
     yield from e2e_cases(rng, 400 if quick else 3500)
     # case-transform commands on words whose case mapping changes the length (sharp s)
     case_ops = [[w, a] for w in ("uw", "lw", "cw") for a in (1, 2, 3)]
@@ -598,9 +662,14 @@ def model_lines(case):
         else:
             out.append(init)
             out += [op_line(op) for op in case["ops"]]
+    elif kind == "argv":
+        out = [f"argv {enc_str(x)}" for x, _ in case["ops"]]
     elif kind == "e2e":
-        out.append(f"init {enc_str(case['text'])} {case['cur']}")
+        init = f"init {enc_str(case['text'])} {case['cur']}"
+        out.append(init)
         for o in case["ops"]:
+            if case.get("fresh"):
+                out.append(init)
             if o["k"] == "qi":
                 out.append(f"e2eqi {enc_str(o['op'][1])}")
             else:
@@ -801,12 +870,37 @@ def e2e_run(case, observe=None):
     with editor(text=case["text"], cursor=case["cur"], multiline=True) as ed:
         lines = [state_line(ed.buffer)]
         for o in case["ops"]:
+            if case.get("fresh"):
+                # every op from the same (text, cursor); the session (and its key processor) goes on
+                ed.buffer.reset(Document(case["text"], case["cur"]))
+                lines.append(state_line(ed.buffer))
             t, c = ed.buffer.text, ed.buffer.cursor_position
             ed.feed(e2e_bytes(o))
             lines.append(state_line(ed.buffer))
             if observe:
                 observe(t, c, o, ed.buffer)
         return lines
+
+
+def argv_run(case):
+    """`event.arg` as a handler sees it after the argument keys were typed into the real editor:
+    F9 is bound to a probe handler that records it"""
+    from editor import editor
+    from prompt_toolkit.key_binding import KeyBindings
+    seen = []
+    kb = KeyBindings()
+
+    @kb.add("f9")
+    def _(event):
+        seen.append(event.arg)
+
+    out = []
+    with editor(text="abc", cursor=1, multiline=True, key_bindings=kb) as ed:
+        for x, plain in case["ops"]:
+            del seen[:]
+            ed.feed(arg_bytes({"arg": x, "plain": plain}) + "\x1b[20~")
+            out.append(str(seen[0]) if len(seen) == 1 else "handler-calls:%d" % len(seen))
+    return out
 
 
 def fc_run(case, observe=None):
@@ -856,6 +950,8 @@ def impl_lines(case):
     out = []
     if kind == "e2e":
         return e2e_run(case)
+    if kind == "argv":
+        return argv_run(case)
     if kind == "fc":
         return fc_run(case)
     if kind == "tc":
@@ -1252,6 +1348,14 @@ def oracle(case):
                 v.append(x)
         e2e_run(case, obs)
         return dedupe(v)
+    if kind == "argv":
+        got = argv_run(case)
+        for (x, plain), g in zip(case["ops"], got):
+            if g != str(typed_arg_value(x)):
+                v.append({"signature": "KeyPressEvent.arg | typed argument",
+                          "msg": f"typing Esc-prefixed {x!r} (plain continuation={plain}) gives event.arg={g}, "
+                                 f"the typed number is {typed_arg_value(x)}"})
+        return dedupe(v)
     if kind == "fc":
         def obs(cache, key, d):
             if (d.text, d.cursor_position) != key:
@@ -1318,6 +1422,8 @@ def nontrivial(case):
     kind = case.get("kind", "ops")
     if kind in ("ops", "e2e"):
         return len(case["text"]) > 0
+    if kind == "argv":
+        return True
     if kind == "hist":
         return len(case["lines"]) > 1
     return len(case["ops"]) > 1
@@ -1333,7 +1439,7 @@ def distribution(cases):
             key = str(n) if n < 6 else "6+"
             d["text_len"][key] = d["text_len"].get(key, 0) + 1
         for op in c["ops"]:
-            name = op["op"][0] if isinstance(op, dict) else (op[0] if kind != "fc" else "fcget")
+            name = op["op"][0] if isinstance(op, dict) else ("argv" if kind == "argv" else op[0] if kind != "fc" else "fcget")
             d["ops"][name] = d["ops"].get(name, 0) + 1
     return d
 
